@@ -284,13 +284,33 @@ Inductive op :=
 | OAdd (t : nat) (txs : list (N * Z)) (force : bool)
 | OCommit (t : nat)
 | OHas (t : nat) (id : N) (ts : Z)                (* tracker.Has *)
-| OMgrHas (g : bool) (id : N) (ts : Z).           (* manager.Has *)
+| OMgrHas (g : bool) (id : N) (ts : Z)            (* manager.Has *)
+| ORestart.                                       (* node restart: a new manager over the same database *)
 
 Inductive out :=
 | RNone                       (* nothing to observe (New, Commit) *)
 | RBool (b : bool)
 | RAdd (cnt : nat) (cls : N)
 | RBadRef.                    (* the operation names a tracker that does not exist *)
+
+(* Restart of the node: txlocator.NewManager over the same database — m.locators
+   and both caches empty, maxTSInDB 0 (unknown), the database kept.  The tracker
+   objects of the old process are gone: the blocks that were not finalized are
+   lost (their trackers become empty, closed and parent-less); the trackers of
+   finalized blocks keep their place in the store for the ghost chain, and
+   tracker.New on one of them is what the new process does when it continues
+   from the last finalized block: manager.NewTracker (a parent-less tracker). *)
+Definition restart_manager (m : manager) : manager :=
+  {| m_locs := []; m_cp := empty_cache; m_cn := empty_cache; m_db := m_db m |}.
+
+Definition kill (tk : tracker) : tracker :=
+  if t_open tk then
+    {| t_grp := t_grp tk; t_ts := t_ts tk; t_th := t_th tk; t_ids := []; t_open := false;
+       t_parent := None; t_gparent := t_gparent tk |}
+  else tk.
+
+Definition restart (st : state) : state :=
+  {| s_trk := map kill (s_trk st); s_mgr := restart_manager (s_mgr st) |}.
 
 Definition step_v v (st : state) (o : op) : state * out :=
   match o with
@@ -305,6 +325,7 @@ Definition step_v v (st : state) (o : op) : state * out :=
   | OHas t id ts => match tracker_has_v v st t id ts with
                     | Some b => (st, RBool b) | None => (st, RBadRef) end
   | OMgrHas g id ts => (st, RBool (manager_has_v v (s_mgr st) g id ts))
+  | ORestart => (restart st, RNone)
   end.
 
 Definition run_v v (st : state) (h : list op) : state :=
